@@ -99,7 +99,8 @@ func (c *sclient) pick(cfg *StressCfg) (kind, line string, idle bool) {
 	}
 	switch x := r.Intn(100); {
 	case x < 12:
-		return "FETCH", "FETCH " + set() + " (FLAGS BODY[])", false
+		// (the structural items as well: whatever the backend derives from a message and keeps)
+		return "FETCH", "FETCH " + set() + " (FLAGS BODY[] ENVELOPE BODYSTRUCTURE)", false
 	case x < 18:
 		return "FETCH", "UID FETCH 1:* (FLAGS UID)", false
 	case x < 28:
